@@ -76,6 +76,8 @@ def hashable(x):
     """isinstance(x, Hashable) for an attribute value (None is hashable)."""
     if x is None:
         return True
+    if isinstance(x, (SFMap, DRef, LRef)):
+        return False  # dicts and lists are unhashable
     if isinstance(x, SOpt):
         return either(mk_bool(x.isnone), mk_bool(_HASHABLE(x.val.e)))
     return mk_bool(_HASHABLE(x.e))
